@@ -98,12 +98,45 @@ def _eas_batch(eas, ev, beta, alt, E, lat, lon, A, QE, thr, Z, dask):
                               "cosEff": float(ce[i]), "batch_len": n}})
 
 
+def geo_job(job):
+    """the straight-line helper functions (shower_properties.py, detector_geometry.py) against Optical.Along / Dist"""
+    use_repo()
+    import warnings
+    warnings.simplefilter("ignore")
+    from nuspacesim.simulation.eas_optical import shower_properties as sp, detector_geometry as dg
+    rng = np.random.default_rng(job["seed"])
+    n = job["n"]
+    R = 6378.1
+    beta = np.radians(rng.uniform(0.01, 89.0, n))
+    z = rng.uniform(0.0, 60.0, n)
+    z1 = z + rng.uniform(0.001, 40.0, n)
+    Z = z1 + 10.0 ** rng.uniform(0.5, 4.5, n)
+    s = 10.0 ** rng.uniform(-3.0, 3.0, n)
+    beta[:3], z[:3] = [np.radians(0.01), np.radians(42.0), np.radians(89.0)], [0.0, 20.0, 0.0]
+    ev = []
+    path = sp.path_length_tau_atm(z, beta, R)
+    altS = sp.altitude_along_path_length(s, beta, R)
+    len01 = dg.length_along_prop_axis(z, z1, beta, R)
+    altL = dg.altitude_along_prop_axis(s, z, beta, R)
+    gain = dg.gain_in_altitude_along_prop_axis(s, z, beta, R)
+    dist = dg.distance_to_detector(beta, z, Z, R)
+    prop = sp.propagation_angle(beta, z, R)
+    view = dg.viewing_angle(beta, Z, R)
+    for i in range(n):
+        ev.append({"kind": "geo", "beta": bits(beta[i]), "z": bits(z[i]), "z1": bits(z1[i]), "Z": bits(Z[i]), "R": bits(R), "s": bits(s[i]),
+                   "path": bits(path[i]), "altS": bits(altS[i]), "len01": bits(len01[i]), "altL": bits(altL[i]), "gain": bits(gain[i]),
+                   "dist": bits(dist[i]), "prop": bits(prop[i]), "view": bits(view[i]),
+                   "_m": {"beta_deg": float(np.degrees(beta[i])), "z": float(z[i]), "z1": float(z1[i]), "Z": float(Z[i]), "s": float(s[i]),
+                          "dist": float(dist[i])}})
+    return ev
+
+
 def _was(log, a):
     return any(x[0] == float(a) for x in log)
 
 
 def _dispatch(job):
-    return scale_job(job) if job["t"] == "scale" else eas_job(job)
+    return {"scale": scale_job, "eas": eas_job, "geo": geo_job}[job["t"]](job)
 
 
 def run(tier="quick", seed=0):
@@ -116,12 +149,13 @@ def run(tier="quick", seed=0):
     cfgs = [(2.5, 0.2, 10.0, 525.0), (1.0, 1.0, 1.0, 525.0), (10.0, 0.05, 0.01, 33.0), (0.3, 0.9, 1e-6, 2000.0)]
     for j in range(14 if thorough else 7):
         jobs.append({"t": "eas", "seed": seed * 100 + 50 + j, "n": 300 if thorough else 36, "cfgs": [cfgs[j % 4], cfgs[(j + 1) % 4]]})
+    jobs.append({"t": "geo", "seed": seed * 100 + 99, "n": 2000 if thorough else 200})
     res = par.pmap(_dispatch, jobs, workers=14)
     ev = [e for r in res for e in r]
     pr.validate("TraceOptical", ev, name="optical-chain", chunks=8)
     k = {}
     for e in ev:
-        key = e["kind"] + ("" if e["kind"] == "scale" else (":in" if 0.0 <= e["_m"]["alt"] <= 20.0 else ":out"))
+        key = e["kind"] + ("" if e["kind"] in ("scale", "geo") else (":in" if 0.0 <= e["_m"]["alt"] <= 20.0 else ":out"))
         k[key] = k.get(key, 0) + 1
     enh = sum(1 for e in ev if e["kind"] == "eas" and e["_m"]["numPEs"] > 2 * e["_m"]["thr"])
     pr.note(events=k, enhanced_cone_events=enh)
